@@ -18,6 +18,18 @@ import (
 	"verifharness/hx"
 )
 
+// stringBound: "1" when the text String() renders is within the bound the theorems state for the model's render
+// cost (C16_sei_RegisteredSEI_String_total / C16_sei_UnregisteredSEI_String_total), otherwise its length
+func stringBound(m sei.SEIMessage, bound int) string {
+	if m == nil || isNilMsg(m) {
+		return ""
+	}
+	if n := len(m.String()); n > bound {
+		return fmt.Sprintf("String() renders %d bytes, bound %d", n, bound)
+	}
+	return "1"
+}
+
 func errClass(err error) string {
 	if err != nil {
 		return "err"
@@ -483,35 +495,60 @@ func init() {
 			if err == nil && m != nil {
 				sink = useMsgs([]sei.SEIMessage{m})
 			}
-			return errClass(err), nil
+			return errClass(err), func() string {
+				if err != nil || m == nil {
+					return ""
+				}
+				return hx.Hex(m.Payload()) + ";" + fmt.Sprint(m.Size())
+			}
 		}},
 		target{"sei.DecodeContentLightLevelInformationSEI", false, func(in []byte, arg int) (string, func() string) {
 			m, err := sei.DecodeContentLightLevelInformationSEI(sei.NewSEIData(144, in))
 			if err == nil && m != nil {
 				sink = useMsgs([]sei.SEIMessage{m})
 			}
-			return errClass(err), nil
+			return errClass(err), func() string {
+				if err != nil || m == nil {
+					return ""
+				}
+				return hx.Hex(m.Payload()) + ";" + fmt.Sprint(m.Size())
+			}
 		}},
 		target{"sei.DecodeUserDataRegisteredSEI", false, func(in []byte, arg int) (string, func() string) {
 			m, err := sei.DecodeUserDataRegisteredSEI(sei.NewSEIData(4, in))
 			if err == nil && m != nil {
 				sink = useMsgs([]sei.SEIMessage{m})
 			}
-			return errClass(err), nil
+			return errClass(err), func() string {
+				if err != nil {
+					return ""
+				}
+				return stringBound(m, 2*len(in)+200)
+			}
 		}},
 		target{"sei.DecodeUserDataUnregisteredSEI", false, func(in []byte, arg int) (string, func() string) {
 			m, err := sei.DecodeUserDataUnregisteredSEI(sei.NewSEIData(5, in))
 			if err == nil && m != nil {
 				sink = useMsgs([]sei.SEIMessage{m})
 			}
-			return errClass(err), nil
+			return errClass(err), func() string {
+				if err != nil {
+					return ""
+				}
+				return stringBound(m, 4*len(in)+200)
+			}
 		}},
 		target{"sei.ExtractCEA608sei", false, func(in []byte, arg int) (string, func() string) {
 			m, err := sei.ExtractCEA608sei(sei.NewSEIData(4, in))
 			if err == nil && m != nil {
 				sink = useMsgs([]sei.SEIMessage{m})
 			}
-			return errClass(err), nil
+			return errClass(err), func() string {
+				if err != nil {
+					return ""
+				}
+				return stringBound(m, 2*len(in)+200)
+			}
 		}},
 		target{"sei.ParseCEA608", false, func(in []byte, arg int) (string, func() string) {
 			a, b, err := sei.ParseCEA608(in)
